@@ -8,16 +8,16 @@
 set -u
 ID="$1"; V="$2"; shift 2
 CHECKS=("$@"); [ ${#CHECKS[@]} -eq 0 ] && CHECKS=("$ID")
-WT=/tmp/wt/$ID; S=$WT/SEEDED/$V
+BASE="${WT_BASE:-/tmp/wt}"; TAG="${TAG:-}"; WT=$BASE/$ID; S=$WT/SEEDED/$V
 export CARGO_NET_OFFLINE=true
 [ -f "$S/patch.diff" ] || { echo "no patch $S/patch.diff"; exit 2; }
 cd "$WT" && git checkout -q -- . && rm -f tests/seeded_demo.rs
 mkdir -p tests && cp "$S/demo.rs" tests/seeded_demo.rs
-cargo test --offline --test seeded_demo > /tmp/wt/$ID-$V-demo-clean.log 2>&1; demo_clean=$?
+cargo test --offline --test seeded_demo > $BASE/$ID-$V-demo-clean.log 2>&1; demo_clean=$?
 git apply "$S/patch.diff" || { echo "patch does not apply"; rm -f tests/seeded_demo.rs; exit 2; }
-cargo test --offline --test seeded_demo > /tmp/wt/$ID-$V-demo-patched.log 2>&1; demo_patched=$?
+cargo test --offline --test seeded_demo > $BASE/$ID-$V-demo-patched.log 2>&1; demo_patched=$?
 rm -f tests/seeded_demo.rs
-cargo test --offline --workspace --no-fail-fast > /tmp/wt/$ID-$V-suite.log 2>&1; suite=$?
+cargo test --offline --workspace --no-fail-fast > $BASE/$ID-$V-suite.log 2>&1; suite=$?
 git checkout -q -- .
 echo "$ID-$V: suite_with_patch=$suite demo_clean=$demo_clean demo_patched=$demo_patched"
 if [ $suite -ne 0 ] || [ $demo_clean -ne 0 ] || [ $demo_patched -eq 0 ]; then echo "$ID-$V: NOT VALID (kept out)"; exit 3; fi
@@ -28,15 +28,15 @@ git -C /repo apply "$S/patch.diff" || exit 2
 results=()
 for c in "${CHECKS[@]}"; do
   start=$(date +%s)
-  ./check "$c" quick > /tmp/wt/$ID-$V-check-$c.log 2>&1; code=$?
+  ./check "$c" quick > $BASE/$ID-$V-check-$c.log 2>&1; code=$?
   secs=$(( $(date +%s) - start ))
-  first=$(grep -m1 -A1 '^VIOLATION' /tmp/wt/$ID-$V-check-$c.log | tail -1 | python3 -c 'import sys; print(sys.stdin.read().strip()[:160])')
+  first=$(grep -m1 -A1 '^VIOLATION' $BASE/$ID-$V-check-$c.log | tail -1 | python3 -c 'import sys; print(sys.stdin.read().strip()[:160])')
   results+=("{\"check\": \"$c\", \"exit\": $code, \"seconds\": $secs, \"first_violation\": $(python3 -c 'import json,sys; print(json.dumps(sys.argv[1]))' "$first")}")
   echo "  check $c -> exit $code in ${secs}s  $first"
 done
 git -C /repo checkout -- .
 rm -rf /verif/replays/*/found
-D=/verif/seeded/$ID-$V; mkdir -p "$D"
+D=/verif/seeded/$ID-$TAG$V; mkdir -p "$D"
 cp "$S/patch.diff" "$D/patch.diff"; cp "$S/demo.rs" "$D/demo.rs"; cp "$S/notes.md" "$D/notes.md" 2>/dev/null
 python3 - "$ID" "$V" "$D" "$(IFS=,; echo "${results[*]}")" <<'PY'
 import json, sys
@@ -44,7 +44,7 @@ i, v, d, res = sys.argv[1:5]
 notes = open(d + '/notes.md').read() if __import__('os').path.exists(d + '/notes.md') else ''
 meta = {
   'property': i, 'variant': v,
-  'origin': 'written by a fresh sub-agent that saw only the property text and its own scratch worktree of /repo',
+  'origin': 'written by a fresh sub-agent that saw only the property text and its own scratch worktree of /repo' + (' (round 2: asked for changes that need deep or rare conditions)' if 'H' in d.split('-')[-1] else ''),
   'validated': 'library suite passes with the patch (94 unit + 42 doc tests); demo.rs (as tests/seeded_demo.rs) fails with the patch and passes without it — run in the scratch worktree by tools_seeded.sh',
   'needs_to_manifest': notes[:1500],
   'checks_run': json.loads('[' + res + ']'),
